@@ -353,3 +353,51 @@ def r20_9(ctx):
                     raise AnalysisError(f"EZSP.{name} returns {p.value!r}: whether that is None is outside the modelled subset")
                 ctx.require(p.value is None, f"returns-none:{name}", f"EZSP.{name} - a plain method the gateway calls through the cross-thread proxy - returns "
                             f"{p.value!r} on some path; the proxy raises TypeError for any result other than None (use_thread=True)", func=f, trace=p.trace(10))
+
+
+@rule("R20.10", ["C20", "C01", "C04"], "T-FUN", floor=1)
+def r20_10(ctx):
+    """A burst of calls: 300 plain calls made through the proxy from another loop while the owner's loop is busy (none of the
+    queued callbacks has run yet), then the owner's loop runs everything that was queued, in the order it was queued: the
+    wrapped method is executed exactly once per call, in call order, each time with that call's argument (a bounded or
+    coalescing queue between the threads drops or reorders calls - upward frames the link has already acknowledged)."""
+    repo = ctx.repo
+    loops = (loop_obj(1), loop_obj(2))
+    f, owner, paths = fetch_wrapper(ctx, True, "other", loops)
+    ctx.fn(f)
+    ctx.anchor(len(paths) == 1 and paths[0].terminal == "return", "proxy attribute access returns the wrapper")
+    wrapper = paths[0].value
+    n_calls = 300
+    models = [("asyncio.get_running_loop", lambda px_, t, a, k, fr: loops[1]), ("asyncio.get_event_loop", lambda px_, t, a, k, fr: loops[1]),
+              ("*.is_closed", lambda px_, t, a, k, fr: False), ("*.is_running", lambda px_, t, a, k, fr: True),
+              ("*.call_soon_threadsafe", lambda px_, t, a, k, fr: None), ("asyncio.iscoroutinefunction", lambda px_, t, a, k, fr: False),
+              ("inspect.iscoroutinefunction", lambda px_, t, a, k, fr: False), ("func", lambda px_, t, a, k, fr: None)]
+    px = PX(repo, models=models, inline=same_class(), max_paths=50)
+    px.inline.root = f
+
+    def entry():
+        for i in range(n_calls):
+            px.do_call(wrapper, "wrapper", [i], {}, None, None, False)
+        queued = [e for e in list(px_events()) if e.kind == "call" and e.what.endswith("call_soon_threadsafe") and e.args]
+        px.emit("mark", "owner loop runs")
+        for e in queued:
+            px.do_call(e.args[0], "queued_callback", list(e.args[1:]), {}, None, None, False)
+        return len(queued)
+
+    def px_events():
+        return px._events if hasattr(px, "_events") else px.events
+
+    ps = px._run(entry)
+    ctx.paths += len(ps)
+    ctx.anchor(len(ps) == 1, f"burst scenario: {len(ps)} paths")
+    p = ps[0]
+    if p.terminal != "return":
+        ctx.violation("burst", f"a burst of {n_calls} plain calls: {p.terminal} {p.value!r}", func=f, trace=p.trace(12))
+        return
+    cut = next(i for i, e in enumerate(p.events) if e.kind == "mark" and e.what == "owner loop runs")
+    early = [e for e in p.events[:cut] if e.kind == "call" and e.what == "func"]
+    ran = [e.args[0] if e.args else None for e in p.events[cut:] if e.kind == "call" and e.what == "func"]
+    ctx.require(not early, "burst:direct", f"{len(early)} of the calls made from another loop were executed on the caller's side", func=f)
+    ctx.require(ran == list(range(n_calls)), "burst", f"a burst of {n_calls} plain calls from another loop, then the owner's loop runs what was queued ({p.value} callbacks): "
+                f"the method ran {len(ran)} times" + (f", first deviation at call #{next((i for i, (a_, b_) in enumerate(zip(ran, range(n_calls))) if a_ != b_), len(ran))}" if ran != list(range(n_calls)) else "")
+                + "; every call must run exactly once, in order", func=f, trace=p.trace(8))
